@@ -43,7 +43,11 @@ RULE = ("all determined base networks {2-D: 3 fixed + 2 new lattice points (quic
         "every position, f {0.9,1.1} (thorough: six) | nominal blunders at every pair of positions, sizes (1.1,1.1) (thorough: "
         "{0.9,1.1}^2)}; the same three oracles, and in addition per execution (4) every row of the text listing 'Outlying absolute "
         "terms' shows the reference absolute term of its observation (mm / cc, 3e-5 relative) and the number of rows == "
-        "observations given - observations in the adjustment - observations unusable for structural reasons (reference closure); "
+        "observations given - observations in the adjustment - observations unusable for structural reasons (reference closure); (5) the table "
+        "'rejected_observations' of the --html output (LocalNetwork::rejected_observations()) holds exactly the observations given "
+        "minus the observations adjusted, each once: row count, every row is an excluded observation of its kind (type, points, "
+        "value to 6e-4) and no kind has more rows than excluded observations, every excluded observation has a row - evaluated on "
+        "every execution of every case (structural defect x blunder = two revisions included); "
         "state = one generated input, transition = one gama-local execution")
 
 
